@@ -216,14 +216,35 @@ impl Directive {
                     _ => SegmentType::Code,
                 };
 
-                if !context.last_segment().unwrap().borrow().is_empty() {
+                // an `.org` of this segment type that has not seen an item yet (`.org 4` / `.dseg` /
+                // ... / `.cseg`) still says where the next item of this type goes
+                let pending_origin = context
+                    .segments
+                    .borrow()
+                    .iter()
+                    .rev()
+                    .find(|segment| segment.borrow().t == new_type)
+                    .map(|segment| {
+                        let segment = segment.borrow();
+                        if segment.is_empty() {
+                            segment.address
+                        } else {
+                            0
+                        }
+                    })
+                    .unwrap_or(0);
+                let (last_is_empty, last_address) = {
+                    let last_segment = context.last_segment().unwrap();
+                    let last_segment = last_segment.borrow();
+                    (last_segment.is_empty(), last_segment.address)
+                };
+                if !last_is_empty || last_address != 0 {
                     context.add_segment(Segment::new(new_type));
                 } else {
-                    // reuse the still empty segment, but not an origin given for the old segment type
-                    let last_segment = context.last_segment().unwrap();
-                    last_segment.borrow_mut().t = new_type;
-                    last_segment.borrow_mut().address = 0;
+                    // reuse the still empty segment
+                    context.last_segment().unwrap().borrow_mut().t = new_type;
                 }
+                context.last_segment().unwrap().borrow_mut().address = pending_origin;
             }
             Directive::Device => {
                 if let DirectiveOps::OpList(values) = opts {
